@@ -100,6 +100,7 @@ InitState(engine) ==
   [ tx        |-> << >>,        \* TX collection: sequence of [k (folded), v]
     mvar      |-> << >>,        \* MATCHED_VAR
     mvarName  |-> << >>,        \* MATCHED_VAR_NAME
+    ruleMsg   |-> << >>,        \* RULE:msg - the message of the rule being evaluated (empty if it has none)
     mvars     |-> << >>,        \* MATCHED_VARS: sequence of [n, v]
     skip      |-> 0,
     skipAfter |-> "",
@@ -166,6 +167,7 @@ ExpandPart(st, p) ==
     [] p.t = "mac" /\ p.c = "TX"           -> TxGet(st, p.k)
     [] p.t = "mac" /\ p.c = "MATCHED_VAR"  -> st.mvar
     [] p.t = "mac" /\ p.c = "MATCHED_VAR_NAME" -> st.mvarName
+    [] p.t = "mac" /\ p.c = "RULE" /\ p.k = <<109, 115, 103>> -> st.ruleMsg       \* %{rule.msg}
     [] OTHER -> << >>
 Expand(st, ve) == FlattenSeq([i \in 1..Len(ve) |-> ExpandPart(st, ve[i])])
 
@@ -468,8 +470,11 @@ EvalChain(st, req, ord, rxMode, r, i, md) ==
        IF res.md = << >> THEN [st |-> res.st, md |-> << >>, ok |-> FALSE]
        ELSE EvalChain(res.st, req, ord, rxMode, r, i + 1, md \o res.md)
 
+\* rule messages are TLA+ strings; the ones scenarios use, as bytes
+MsgBytes(m) == CASE m = "m1" -> <<109, 49>> [] m = "m3" -> <<109, 51>> [] m = "m5" -> <<109, 53>> [] OTHER -> << >>
 EvalRule(st, req, ord, rxMode, r) ==
-  LET st0 == [st EXCEPT !.mvars = << >>, !.ops = << >>]   \* MATCHED_VARS restarts with every rule
+  LET st0 == [st EXCEPT !.mvars = << >>, !.ops = << >>,   \* MATCHED_VARS restarts with every rule
+                        !.ruleMsg = MsgBytes(r.msg)]        \* the RULE collection describes this rule, not an earlier one
       res == EvalChain(st0, req, ord, rxMode, r, 1, << >>)
   IN IF ~res.ok THEN res.st
      ELSE LET st1 == RunFlow(res.st, r, r.links[1].acts)
